@@ -299,6 +299,13 @@ func runDeadline(c *DeadlineCase) error {
 	return nil
 }
 
+// lateOnly: the failure says that a call came back late (or had not come
+// back when the wait ended), nothing else.
+func lateOnly(err error) bool {
+	m := err.Error()
+	return strings.Contains(m, "still running") || strings.Contains(m, "had not returned") || strings.Contains(m, "did not return within")
+}
+
 func init() {
 	replayers["C09"] = func(raw []byte) error {
 		var c DeadlineCase
@@ -460,7 +467,17 @@ func TestC09(t *testing.T) {
 				c.Millis = rapid.IntRange(0, 100).Draw(rt, "cancelms")
 			}
 		}
-		if err := runDeadline(c); err != nil {
+		err := runDeadline(c)
+		for again := 0; again < 2 && err != nil && lateOnly(err); again++ {
+			// a late return is judged by the clock, and on a machine under heavy
+			// load the clock can be wrong about anybody once: a defect of the
+			// engine is late every time the case is run, a stalled process is not
+			// (false alarm 33)
+			col.Class("late-return-seen-once-and-not-again")
+			time.Sleep(2 * time.Second)
+			err = runDeadline(c)
+		}
+		if err != nil {
 			c.Msg = err.Error()
 			violation(rt, "C09", c, "%v", err)
 		}
